@@ -182,7 +182,7 @@ class Side:
                 self.mirror[tag][off] = self.region(tag)[off]
         self.applied = len(log)
 
-    def reset(self, regs, dirty=()):
+    def reset(self, regs, dirty=(), force_new=False):
         if self.machine == '48K':
             for addr, old in reversed(self.pokes):
                 if self.is_c:
@@ -213,7 +213,7 @@ class Side:
                     v = self.baseregion(tag)[off]
                     list.__setitem__(self.region(tag), off, v)
                     self.mirror[tag][off] = v
-            if self.mem.o7ffd != 0:
+            if self.mem.o7ffd != 0 or (force_new and self.is_c):
                 self.mem.out7ffd(0)
                 if self.is_c:
                     # the C simulator keeps its own latch and bank pointers, initialised from
@@ -236,6 +236,37 @@ class Side:
         for i, v in enumerate(regs):
             r[i] = v
 
+    def probe_bank(self):
+        """Which RAM bank does *simulated code* see at 0xC000?  (The C simulator keeps its own
+        bank pointers; the Python-visible Memory object only mirrors them through the tracer.)
+        Stamps every bank, executes LD A,(0xFFFE) from bank 2 and restores everything."""
+        sim = self.sim
+        r = sim.registers
+        saved = [int(v) for v in r]
+        m = self.mem
+
+        def put(reg, off, v):
+            if isinstance(reg, LogList):
+                list.__setitem__(reg, off, v)
+            else:
+                reg[off] = v
+        old = [bank[0x3FFE] for bank in m.banks]
+        for b, bank in enumerate(m.banks):
+            put(bank, 0x3FFE, 0xB0 + b)
+        b2 = m.banks[2]
+        code_old = [b2[0x100], b2[0x101], b2[0x102]]
+        for i, v in enumerate((0x3A, 0xFE, 0xFF)):
+            put(b2, 0x100 + i, v)
+        sim.run(0x8100)
+        seen = int(r[0]) - 0xB0
+        for i, v in enumerate(code_old):
+            put(b2, 0x100 + i, v)
+        for b, bank in enumerate(m.banks):
+            put(bank, 0x3FFE, old[b])
+        for i, v in enumerate(saved):
+            r[i] = v
+        return seen
+
     def visible(self):
         m = self.mem
         rom = [i for i, r in enumerate(m.roms) if r is m.memory[0]]
@@ -250,11 +281,15 @@ class Pair:
         self.py = Side(kinds[0], machine, with_tracer)
         self.c = Side(kinds[1], machine, with_tracer)
         self.dirty_c = set()
+        self.probed_at = 0
+        self.had_out = False
 
     def reset(self, regs):
         self.py.reset(regs)
-        self.c.reset(regs, self.dirty_c)
+        self.c.reset(regs, self.dirty_c, force_new=self.had_out)
         self.dirty_c.clear()
+        self.probed_at = 0
+        self.had_out = False
 
     def poke(self, addr, values):
         for i, v in enumerate(values):
@@ -301,6 +336,13 @@ class Pair:
                 out.append('0x7FFD latch: {}={} {}={}'.format(self.kinds[0], py.mem.o7ffd, self.kinds[1], c.mem.o7ffd))
             if py.visible() != c.visible():
                 out.append('paged (rom, bank): {}={} {}={}'.format(self.kinds[0], py.visible(), self.kinds[1], c.visible()))
+            if py.tracer is not None and len(py.tracer.log) != self.probed_at and any(e[0] == 'out' for e in py.tracer.log[self.probed_at:]):
+                # a port was written: what simulated code sees at 0xC000 must agree too
+                self.probed_at = len(py.tracer.log)
+                self.had_out = True
+                bp, bc = py.probe_bank(), c.probe_bank()
+                if bp != bc:
+                    out.append('bank seen by simulated code at 0xC000: {}={} {}={}'.format(self.kinds[0], bp, self.kinds[1], bc))
         if py.tracer is not None:
             if py.tracer.log != c.tracer.log:
                 out.append('port log: {}={} {}={}'.format(self.kinds[0], py.tracer.log[-3:], self.kinds[1], c.tracer.log[-3:]))
@@ -400,6 +442,10 @@ def letters_S(machine):
         for v in (0x01, 0x07, 0x10, 0x17, 0x21, 0x30):
             fixed('PAGE %02X' % v, (0x3E, v), (0x01, 0xFD, 0x7F), (0xED, 0x79))
         fixed('OUT (FD),A', (0xD3, 0xFD))
+        # block OUTs decode the port after B is decremented: B = 0x80 / 0x00 on entry sit on either side of the 0x7FFD decode
+        fixed('LD BC,80FD', (0x01, 0xFD, 0x80), (0x21, 0x00, 0x90))
+        fixed('LD BC,00FD', (0x01, 0xFD, 0x00), (0x21, 0x00, 0x90))
+        fixed('LD BC,81FD', (0x01, 0xFD, 0x81), (0x21, 0x01, 0x90))
         fixed('LD (C000),A', (0x32, 0x00, 0xC0))
         fixed('LD A,(C000)', (0x3A, 0x00, 0xC0))
         fixed('LD (0000),A', (0x32, 0x00, 0x00))
@@ -639,7 +685,7 @@ def _shard(shard, nshards, tier, seed):
             # without a tracer nothing keeps the Python Memory object in step with port writes
             # (the C simulator pages internally, the Python one delegates paging to the tracer);
             # no tool runs in that configuration, so it is explored without port writes
-            S = [l for l in S if not l[0].startswith('PAGE') and l[0] not in ('OUT (FD),A', 'AY', 'OUT (FE),A')
+            S = [l for l in S if not l[0].startswith('PAGE') and not l[0].startswith('LD BC,8') and l[0] not in ('OUT (FD),A', 'AY', 'OUT (FE),A', 'LD BC,00FD')
                  and 'OTDR' not in l[0]]
             fin = [c for c in fin if not _writes_port(c)]
         key = (machine, kinds, with_tracer)
